@@ -76,14 +76,16 @@ def rewritePart (part : Str) : Str :=
   | 58 :: nm => b!"{" ++ toSnake nm ++ b!"}"
   | _ => part
 
-/-- the path of the HTTP rule: every part rewritten; the second component counts the `:name`
-parts whose field is missing from the request (one `addError` each) -/
+/-- the path of the HTTP rule: every part rewritten; the second component counts the `addError`
+calls: `:name` parts whose field is missing from the request, literal parts with a special
+character -/
 def rewritePath (reqProps : List Property) (resolved : Str) : Str × Nat :=
   let parts := splitOnByte 47 resolved
   let missing := (parts.filter fun part =>
     match part with
     | 58 :: nm => !(reqProps.any (·.name = nm))
-    | _ => false).length
+    -- a literal part containing one of `{ } * :` is rejected (`fix: 5ac34d8`)
+    | _ => part.any fun c => c = 123 || c = 125 || c = 42 || c = 58).length
   (joinWith b!"/" (parts.map rewritePart), missing)
 
 def verbBody : Verb → Str
